@@ -10,7 +10,8 @@ from props import _cyc
 ID = 'C13'
 LEAN_MODULES = ['Proofs.C13']
 REQUIRED = ['C13.isGood_spec', 'C13.cv_good_iff', 'C13.good_same_partition', 'C13.cv_good_renumbers',
-            'C13.container_flag_agrees', 'C13.getCycleVector_good_eq', 'C13.container_flag_agrees_getCycleVector']
+            'C13.container_flag_agrees', 'C13.getCycleVector_good_eq', 'C13.container_flag_agrees_getCycleVector',
+            'C13.container_flag_independent_of_options', 'C13.container_flag_is_criteria']
 TRUSTED = ['the float constant 2*pi - phase_edge is computed by the harness with the documented expression and handed to the model exactly',
            'wrap_phase (x % 2pi) is an oracle for phases above 2pi']
 ASSUMPTIONS = ['masks are boolean arrays (the documented type)']
@@ -395,7 +396,13 @@ class ContainerFlag(Stream):
 
     def ops(self, case, out):
         step, edge = _cyc.step_of(case), _cyc.edge_of(case)
-        return [proto.op('CYGOOD', {'step': step, 'edge': edge, 'twopi': _cyc.TWO_PI, 'endlo': _cyc.TWO_PI - edge}, [case['phase']])]
+        # CYGOOD: the flag model (Cycles.containerIsGood); CYGOODC: the flag THROUGH the constructor model with all its options
+        # (Container.initOpts: mode / compute_timings / use_cache; theorem C13.container_flag_independent_of_options)
+        return [proto.op('CYGOOD', {'step': step, 'edge': edge, 'twopi': _cyc.TWO_PI, 'endlo': _cyc.TWO_PI - edge}, [case['phase']]),
+                proto.op('CYGOODC', {'step': step, 'edge': edge, 'twopi': _cyc.TWO_PI, 'endlo': _cyc.TWO_PI - edge,
+                                     'thr': 1.5 * np.pi, 'cache': int(bool(case['cache'])),
+                                     'mode': 1 if case.get('mode') == 'augmented' else 0,
+                                     'timings': int(bool(case.get('timings')))}, [case['phase']])]
 
     def _no_wrap(self, case):
         return not _cyc.wraps_of(case['phase'], _cyc.step_of(case))
@@ -415,9 +422,9 @@ class ContainerFlag(Stream):
             return 'skip:' + self._tie(case)
         if isinstance(out, ImplError):
             return 'implementation raised %s (%s)' % (out['error'], out['msg'][-100:])
-        r = results[0]
-        if not r.ok or [int(v) for v in (r.vecs[0] if r.vecs else [])] != out['flags']:
-            return 'impl=%s model=%s' % (out['flags'][:40], r.raw[:200])
+        for r in results[:2]:
+            if not r.ok or [int(v) for v in (r.vecs[0] if r.vecs else [])] != out['flags']:
+                return 'impl=%s model=%s' % (out['flags'][:40], r.raw[:200])
         return None
 
     @guarded
